@@ -1,0 +1,57 @@
+//go:build verif
+
+package quickfix
+
+// Verification hook (build tag `verif` only): a session on its REAL run loop with its real timers, for the wall-clock
+// stream of the keep-alive property in /verif. Nothing here is compiled into the default build.
+
+import (
+	"bytes"
+	"time"
+)
+
+// VerifClock is an acceptor session FIX.4.2 sender->target running session.run() in its own goroutine.
+type VerifClock struct {
+	s    *session
+	done chan struct{}
+	in   chan fixIn
+}
+
+// NewVerifClock creates the session the way the acceptor does (default settings, memory store) and starts its run loop.
+func NewVerifClock(sender, target string, app Application) (*VerifClock, error) {
+	sid := SessionID{BeginString: "FIX.4.2", SenderCompID: sender, TargetCompID: target}
+	s, err := sessionFactory{}.newSession(sid, NewMemoryStoreFactory(), NewSessionSettings(), nullLogFactory{}, app)
+	if err != nil {
+		return nil, err
+	}
+	v := &VerifClock{s: s, done: make(chan struct{})}
+	go func() { s.run(); close(v.done) }()
+	return v, nil
+}
+
+// Connect hands the session a new connection and returns its outbound channel.
+func (v *VerifClock) Connect() (<-chan []byte, error) {
+	v.in = make(chan fixIn, 64)
+	out := make(chan []byte, 256)
+	if err := v.s.connect(v.in, out); err != nil {
+		return nil, err
+	}
+	return out, nil
+}
+
+// Push delivers one frame from the peer, as the read loop does.
+func (v *VerifClock) Push(frame []byte) {
+	v.in <- fixIn{bytes.NewBuffer(frame), time.Now()}
+}
+
+// HangUp closes the inbound channel: the peer has gone.
+func (v *VerifClock) HangUp() { close(v.in) }
+
+// Stop stops the session and waits (briefly) for its run loop to end.
+func (v *VerifClock) Stop() {
+	v.s.stop()
+	select {
+	case <-v.done:
+	case <-time.After(5 * time.Second):
+	}
+}
